@@ -89,14 +89,16 @@ let judge_eq spec c obs =
   let e = to_string (spec c) in
   if e = to_string obs then "ok" else "bad expected=" ^ e
 
-let model_of = function
-  | "C14" -> c14_model
+let rec model_of p = match p with
+  | "C14" -> (fun c -> match c with L (A "rt" :: _) -> Rt.model "C14" c | _ -> c14_model c)
   | "C11" -> c11_model
   | "C08" -> c08_model
   | "C04" | "C05" | "C12" | "C09" | "C10" -> Rp.model
+  | "C01" | "C06" | "C13" -> Rt.model p
+  | "C02" | "C07" -> (fun _ -> L [A "judge-only"])
   | p -> failwith ("no model for " ^ p)
 let judge_of = function
-  | "C14" -> judge_eq c14_spec
+  | "C14" -> (fun c o -> match c with L (A "rt" :: _) -> Rt.c14r_judge c o | _ -> judge_eq c14_spec c o)
   | "C11" -> judge_eq c11_spec
   | "C08" -> c08_judge
   | "C12" -> Rp.c12_judge
@@ -104,6 +106,11 @@ let judge_of = function
   | "C05" -> Rp.c05_judge
   | "C09" -> Rp.c09_judge
   | "C10" -> Rp.c10_judge
+  | "C01" -> Rt.c01_judge
+  | "C02" -> Rt.c02_judge
+  | "C07" -> Rt.c07_judge
+  | "C06" -> Rt.c06_judge
+  | "C13" -> Rt.c13_judge
   | p -> failwith ("no judge for " ^ p)
 
 let read_lines ic = let rec go acc = match input_line ic with l -> go (l :: acc) | exception End_of_file -> List.rev acc in go []
